@@ -107,6 +107,14 @@ func checkC06(c *Ctx) {
 			}
 		}
 	}, func(o *coreObl) (string, bool) { return "R06.1", o.Rule == "R05.2" })
+	// … and a store issued by Failover stores: Write of every in-module backend performs its store on every path that passes the
+	// argument checks (C08 R08.3) — it does not look at the context's cancellation state, which for the caller's own context may
+	// change at any time
+	c.borrowKinds("C08", func() {
+		for _, b := range backends {
+			c.c08Backend(b)
+		}
+	}, "R06.1", "backends.Write:stores", []string{"R08.3"}, "write-effect")
 	c.c06WithTTL()
 	c.c06Accessors()
 	c.c06Detached()
